@@ -1,4 +1,6 @@
 import Sismic.Proofs.C07
+import Sismic.Proofs.Equiv
+import Sismic.Model.Py
 /-!
 # Property C07 — execution is deterministic and independent of declaration order
 
@@ -10,9 +12,17 @@ history memory.  The theorems below show that each place where the interpreter t
 into an *order of execution* sorts it by a key that is injective on the elements present, so that
 the result depends on the elements only.
 
-Not proved here (partial): the full equivariance statement "two charts equal up to declaration
-order produce equal macro steps from equal states" — it needs the same argument threaded through
-every tree query (`descendants`, `leafFor`, `lca`); the tie checks it on generated charts.
+**The whole run** (`declaration_order_free`, `…_run`): two interpreters whose statecharts differ
+only in the order in which sibling states and transitions were declared (`ChartPerm`), started
+from related states, return the same macro step — consumed event, transitions, exit/entry order,
+sent events — and reach related states (equal configuration, queues, times, context, outside world;
+history memories equal as maps), or fail with the same exception; by a relational Hoare logic over
+the interpreter (`Proofs/Equiv.lean`) on top of the invariance of every tree query and planning
+function (`Proofs/ChartPerm.lean`, `Proofs/SelectPerm.lean`).  Hypotheses: the chart is
+well-formed (`WFChart`) and the evaluator does not read the interpreter's history memory
+(`MemBlind`, proved for the modelled `PythonEvaluator`).  Not compared: the order in which guards
+of one priority class were evaluated (it follows the declaration order; guards have no side
+effects).
 -/
 namespace Sismic.C07
 
@@ -89,5 +99,64 @@ theorem name_order_free (l l' : List Name) (hp : l.Perm l') : isort leName l = i
 theorem exit_list_order_free (c : Chart) (cfg ds ds' : List Name) (hp : ds.Perm ds') :
     (isort c.leRevDepthName ds).filter cfg.contains = (isort c.leRevDepthName ds').filter cfg.contains := by
   rw [revdepth_name_order_free c ds ds' hp]
+
+variable {σ ω : Type} {env env' : Env σ ω}
+
+/-- **One call.**  From related states, `execute_once` on the two statecharts ends the same way:
+    both return the same result and reach related states, or both raise the same exception. -/
+theorem declaration_order_free (h : EnvPerm env env') (hE : MemBlind env.E) (hw : WFChart env.chart)
+    (clock : Int) (rs₁ rs₂ : RS σ ω) (hr : Rel rs₁ rs₂) :
+    (∃ r rs₁' rs₂', executeOnce env clock rs₁ = (.ok r, rs₁') ∧ executeOnce env' clock rs₂ = (.ok r, rs₂') ∧
+      Rel rs₁' rs₂') ∨
+    (∃ e rs₁' rs₂', executeOnce env clock rs₁ = (.error e, rs₁') ∧ executeOnce env' clock rs₂ = (.error e, rs₂')) := by
+  rcases (simb_executeOnce h hE hw clock).cases rs₁ rs₂ hr with ⟨a₁, a₂, r₁, r₂, h1, h2, rfl, h4⟩ | h'
+  · exact Or.inl ⟨a₁, r₁, r₂, h1, h2, h4⟩
+  · exact Or.inr h'
+
+/-- what `Rel` says, spelled out -/
+theorem rel_spelled_out (rs₁ rs₂ : RS σ ω) (h : Rel rs₁ rs₂) :
+    rs₂.st.config = rs₁.st.config ∧ rs₂.st.intQ = rs₁.st.intQ ∧ rs₂.st.extQ = rs₁.st.extQ ∧
+    rs₂.st.time = rs₁.st.time ∧ rs₂.st.ctx = rs₁.st.ctx ∧ rs₂.st.sentEvents = rs₁.st.sentEvents ∧
+    rs₂.st.entryTime = rs₁.st.entryTime ∧ rs₂.st.idleTime = rs₁.st.idleTime ∧
+    rs₂.st.initialized = rs₁.st.initialized ∧ rs₂.world = rs₁.world ∧
+    MemEq rs₁.st.memory rs₂.st.memory := by
+  obtain ⟨m, e, rfl, hm⟩ := h
+  exact ⟨rfl, rfl, rfl, rfl, rfl, rfl, rfl, rfl, rfl, rfl, hm⟩
+
+/-- a run: calls of `execute_once` with their outcomes, up to and including the first exception -/
+inductive Run (env : Env σ ω) : List Int → RS σ ω → List (Except Err (Option MacroStep)) → Prop
+  | nil (rs) : Run env [] rs []
+  | ok {t ts rs rs1 r out} : executeOnce env t rs = (.ok r, rs1) → Run env ts rs1 out → Run env (t :: ts) rs (.ok r :: out)
+  | error {t ts rs rs1 e} : executeOnce env t rs = (.error e, rs1) → Run env (t :: ts) rs [.error e]
+
+/-- **Whole runs**: the same inputs produce the same sequence of macro steps, ending — if at all —
+    with the same exception at the same step. -/
+theorem declaration_order_free_run (h : EnvPerm env env') (hE : MemBlind env.E) (hw : WFChart env.chart)
+    (clocks : List Int) (rs₁ : RS σ ω) (out : List (Except Err (Option MacroStep))) (hrun : Run env clocks rs₁ out) :
+    ∀ rs₂, Rel rs₁ rs₂ → Run env' clocks rs₂ out := by
+  induction hrun with
+  | nil rs => intro rs₂ _; exact Run.nil rs₂
+  | @ok t ts rs rs1 r out hx _ ih =>
+    intro rs₂ hr
+    rcases declaration_order_free h hE hw t rs rs₂ hr with ⟨r', a, b, h1, h2, h3⟩ | ⟨e, a, b, h1, _⟩
+    · rw [hx] at h1
+      simp only [Prod.mk.injEq, Except.ok.injEq] at h1
+      obtain ⟨rfl, rfl⟩ := h1
+      exact Run.ok h2 (ih b h3)
+    · rw [hx] at h1; simp at h1
+  | @error t ts rs rs1 e hx =>
+    intro rs₂ hr
+    rcases declaration_order_free h hE hw t rs rs₂ hr with ⟨r', a, b, h1, _, _⟩ | ⟨e', a, b, h1, h2⟩
+    · rw [hx] at h1; simp at h1
+    · rw [hx] at h1
+      simp only [Prod.mk.injEq, Except.error.injEq] at h1
+      obtain ⟨rfl, rfl⟩ := h1
+      exact Run.error h2
+
+/-- the modelled `PythonEvaluator` does not read the history memory -/
+theorem pyEvaluator_memBlind : MemBlind pyEvaluator where
+  guard := fun _ _ => rfl
+  cond := fun _ _ => rfl
+  exec := fun _ _ => rfl
 
 end Sismic.C07
